@@ -247,11 +247,26 @@ def run_check(pid, tier, harnesses, level="model_checking", assumptions=(), expl
                     continue
                 nval += 1
                 if cp.failures:
-                    # a concrete failure on a path where the symbolic run discharged everything
-                    for cf in cp.failures[:2]:
+                    sym_labels = set(l.split(":")[0] for l in res.obl)
+                    for cf in cp.failures[:4]:
+                        base = cf["label"].split(":")[0]
                         k = match_known(known, pid, h.name, cf)
-                        if k is None and not any(v["label"].split(":")[0] == cf["label"].split(":")[0]
-                                                 for v in violations + knowns):
+                        if base not in sym_labels:
+                            # an obligation that exists only on concrete replays (e.g. one that depends on which
+                            # optimal solution the real solver returns): the failing instance is already a run of the
+                            # real build on inputs the solver produced
+                            rec = dict(harness=h.name, label=cf["label"], sig=_sig(cf), count=1, detail=cf.get("detail"),
+                                       inputs=w)
+                            if k is not None:
+                                rec["known"] = k["what"]
+                                knowns.append(rec)
+                            elif not any(v["sig"] == rec["sig"] for v in violations):
+                                rec["replay"] = write_replay(pid, h.name, dict(cf, inputs=w), dict(concrete_failures=[cf]))
+                                violations.append(rec)
+                        elif k is not None:
+                            knowns.append(dict(harness=h.name, label=cf["label"], known=k["what"]))
+                        elif not any(v["label"].split(":")[0] == base for v in violations + knowns):
+                            # a concrete failure on a path where the symbolic run discharged the same obligation
                             mismatches.append(dict(harness=h.name, solver=solver, inputs=w, failure=cf))
         hc["witness_replays"] = nval
         cov["traces_validated_against_impl"] += nval
